@@ -30,7 +30,7 @@ LEVEL_NOTE = "trusted: CPython 3.12 type()/__mro__ as reference; the renderer of
 TECHNIQUE = "runtime monitoring: differential oracle against CPython type()/__mro__ + contract on c3linear_merge + step budget"
 REQUIRED_COUNTERS = ["mro_compared", "c3_contract_evals", "inherited_lookups_compared", "rejected_by_both",
                      "cycles_reported"]
-EXHAUSTIVE = {"quick": True, "thorough": True}
+EXHAUSTIVE = {"quick": True, "thorough": True}  # quick: exhaustive for N<=5 (+ a sample of N=6); thorough: N<=6
 ASSUMPTIONS = ["CPython 3.12 type() is the reference semantics for C3 linearisation and attribute lookup",
                "exhaustive over the stated bounded space only (N classes, <=3 bases); cross-module and cycle "
                "workloads are sampled"]
@@ -61,6 +61,8 @@ def shards(tier: str, seed: int) -> list[dict]:
     for p in range(8 if tier == "quick" else 16):
         out.append({"kind": "multi", "count": nmulti, "maxn": 6})
     out.append({"kind": "cycles"})
+    if tier == "quick":
+        out += [{"kind": "sampled6", "count": 2500} for _ in range(8)]   # N=6 is exhaustive only in the thorough tier
     return out
 
 
@@ -380,6 +382,11 @@ def run_shard(spec: dict, rec) -> None:  # noqa: ANN001
             run_multi(rec, rng, steps, spec["maxn"])
     elif spec["kind"] == "cycles":
         run_cycles(rec, steps)
+    elif spec["kind"] == "sampled6":
+        for _ in range(spec["count"]):
+            hier = tuple(rng.choice(base_choices(i)) for i in range(6))
+            run_single(rec, hier, members_for(rng, 6), steps)
+            rec.count("sampled_six_class_hierarchies")
 
 
 def run_replay(inp: dict, rec) -> None:  # noqa: ANN001
